@@ -221,3 +221,50 @@ class RecScaler(StandardScaler):
         if self.identity:
             return X
         return super().transform(X)
+
+
+# ---------------------------------------------------------------------------
+class Centroid(_Base):
+    """Deterministic, order-insensitive learner (difference of class centroids on all
+    columns but the row id) that records every call.  iface: 'df' | 'proba2' | 'proba1'."""
+
+    def __init__(self, log="default", w=1.0, eps=0.0, feat=0, iface="df"):
+        super().__init__(log=log, w=w, eps=eps, feat=feat)
+        self.iface = iface
+
+    def fit(self, X, y):
+        super().fit(X, y)
+        X = np.asarray(X, dtype=np.float64)[:, :-1]
+        y = np.asarray(y)
+        pos, neg = X[y > 0.5], X[y <= 0.5]
+        # exactly rounded sums: independent of the order of the rows
+        import math
+
+        mp = np.array([math.fsum(pos[:, j]) for j in range(X.shape[1])]) / max(1, len(pos))
+        mn = np.array([math.fsum(neg[:, j]) for j in range(X.shape[1])]) / max(1, len(neg))
+        self.coef_ = mp - mn
+        self.mid_ = (mp + mn) / 2.0
+        return self
+
+    def _score(self, X):
+        X = np.asarray(X, dtype=np.float64)
+        # element-wise accumulation in a fixed column order: the score of a row is bit-identical
+        # wherever the row stands (BLAS matrix products are not position independent)
+        out = np.zeros(len(X))
+        for j in range(X.shape[1] - 1):
+            out = out + (X[:, j] - self.mid_[j]) * self.coef_[j]
+        _emit(self.log, (self._token(), "predict", X[:, -1].astype(np.int64).copy(), out.copy()))
+        return out
+
+    def __getattr__(self, name):
+        # expose exactly one scoring interface
+        iface = self.__dict__.get("iface", "df")
+        if name == "decision_function" and iface == "df":
+            return self._score
+        if name == "predict_proba" and iface in ("proba2", "proba1"):
+            def proba(X):
+                s = self._score(X)
+                p = 1.0 / (1.0 + np.exp(-np.clip(s, -50, 50)))
+                return np.column_stack([1.0 - p, p]) if iface == "proba2" else p.reshape(-1, 1)
+            return proba
+        raise AttributeError(name)
